@@ -6,16 +6,22 @@ CONFIG = {
     "trusted_base": [
         "os.File Seek/Read, encoding/binary and the 128-byte FileHeaderRaw layout: the model reads entry i of a list; agreement is checked on real .DIR files on every run",
         "strconv.Atoi / fmt %d / the article-id codec: modelled in Model/C13.lean (property C13), compared on every cursor of every walk",
+        "everything of ptt.NewPost besides the new index record and the cached total (permission, article file, stamp, money, log-board copies): run for real (user SYSOP), not modelled; the name it chooses (clock + random suffix) is passed to the model in the op line, so the op stream of posting histories is not byte-identical between runs",
         "permission check, user/board lookup and shared-memory attachment in front of ptt.LoadGeneralArticles / FindArticleStartIdx: exercised (user SYSOP, fixture board 10_WhoAmI), not modelled",
     ],
     "modelled": ["cmsys.FindRecordStartIdx", "cmsys.findValidRecordIdxInStore", "cmsys.findRecordStartIdxBinSearch",
                  "cmsys.findRecordStartIdxBinSearchValidIdxInStore", "cmsys.findRecordStartIdxPostSearchDesc/Asc (+LinearSearch)",
                  "cmsys.GetRecord", "cmsys.GetRecords", "ptt.LoadGeneralArticles", "ptt.FindArticleStartIdx",
                  "cache.GetBTotalWithRetry/SetBTotal (count only)", "bbs.LoadGeneralArticles", "bbs.SerializeArticleIdxStr",
-                 "bbs.DeserializeArticleIdxStr", "bbs.NewArticleSummaryFromRaw (Idx field)"],
+                 "bbs.DeserializeArticleIdxStr", "bbs.NewArticleSummaryFromRaw (Idx field)",
+                 "ptt.DoPostArticle/NewPost (effect on .DIR and on the cached total: AppendRecord + cache.SetBTotal)",
+                 "cmsys.AppendRecord (a record added without the cache being told)",
+                 "ptt.doCrosspost / crossPostWriteFile (log-board copy: record count and cached total of ALLPOST only)",
+                 "cache.ReloadBCache (totals zeroed)"],
     "assumptions": [
         "the parsable entries of the index are in non-decreasing creation-time order and no two of them share (time, name[2:]) (SortedValid, UniqueKeys)",
         "the cached article count is at most the number of records in the file (find_stale_total); a larger count is modelled and compared but outside the property",
+        "posting path (post_*): the new name has a parsable time and the file with the new record is SortedValid/UniqueKeys (a stamp ahead of the clock after a name collision can break the order: outside the property)",
         "page walk: no look-ahead element is unparsable (LookaheadOKAsc/Desc; known finding walk:unparsable-lookahead shows the walk stops otherwise); the cached total equals the record count",
         "bbs level (pagewalk_bbs, cursor_roundtrip_*): every name is unparsable or in the article-id domain of C13 (M./G./.d + 10-digit time below 2^31 + .A. + 3 upper-case hex digits) (NamesOK)",
         "GetRecord: an entry carrying the looked-up name key carries the looked-up time (hkt; true of real names, whose key contains the time digits)",
